@@ -64,3 +64,11 @@ package storage
 //@ func (SessionStoreImpl[T]).Put
 //@   prop C05
 //@   ensures [stored-under-this-stores-key] did(call (*cache.Cache[T]).Set #1) ==> arg(call (*cache.Cache[T]).Set #1, 2) == any(old(s.db.getFullKey(s.prefixes, key))) && arg(call (*cache.Cache[T]).Set #1, 0) == s.underlying
+
+// ---- C05: a use-once mark lives as long as the lifetime it was stored with: the in-memory session database is the plain
+// go-cache store over a go-cache client (an entry leaves it only when its lifetime has passed or it is deleted) - nothing
+// that evicts live entries (a bounded or LRU wrapper) sits in between ----
+//@ func NewInMemorySessionDatabase
+//@   prop C05
+//@   ensures [entries-live-until-their-lifetime-ends] did(call v4.NewGoCache #1) && did(call go-cache.New #1) && arg(call v4.NewGoCache #1, 0) == any(ret(call go-cache.New #1))
+//@        && didCallWith("cache.New", 0, any(ret(call v4.NewGoCache #1)))
